@@ -129,7 +129,7 @@ PROPS = {
                 "Non-trivial = escaping changed the string / HasChanged said no recompilation.",
         "exhaustive": True,
         "proved": ["C16_roundtrip", "C16_devmode", "C16_norecompile", "C16_haschanged_pinned (T1)", "C16_textfile_current", "C16_textfile_current_joined",
-                   "C16_textguard_pinned (T1)", "C16_watch_fresh", "C16_watch_inv", "C16_watch_pinned (T1)",
+                   "C16_textguard_pinned (T1)", "C16_watch_fresh", "C16_watch_inv", "C16_watch_pinned (T1)", "C16_window_rebuild", "C16_window_pinned (T1)",
                    "C16_transcription_pinned (T1: control structure and calls of eventhandler.go:FSEventHandler.UpsertHash, watchmode.go:WriteString, watchmode.go:cacheStrings, watchmode.go:getWatchedStrings)"],
         "monitored": ["model = real strconv.Quote / Unquote", "real literals survive the text file", "dev-mode render = normal render (child process)",
                       "HasChanged false => generated code equal outside literals (also with the real handler's verdict per edit)",
